@@ -353,6 +353,95 @@ func genDoc(r *common.Rng, cfg genCfg) doc {
 	return d
 }
 
+// genSharedParams: OpenAPI 2 paths whose path item declares parameters (path, query, header) that 2-4 methods
+// inherit; methods with and without parameters of their own; body parameters of several methods sharing one
+// $ref schema; operation-level parameters overriding a path-level one with the same (name, in).
+func genSharedParams(r *common.Rng, stream string) doc {
+	g := &gen{r: r, cfg: genCfg{format: "swagger", stream: stream}}
+	d := doc{Kind: "doc", Format: "swagger", Stream: stream}
+	var objs []string
+	for _, n := range []string{"Item", "Order", "Note"}[:1+r.Intn(3)] {
+		d.Schemas = append(d.Schemas, g.object(n, nil, 0))
+		objs = append(objs, n)
+	}
+	np := 1 + r.Intn(2)
+	for pi := 0; pi < np; pi++ {
+		path := []string{"/items/{id}", "/orders/{orderId}/lines", "/notes"}[(pi+r.Intn(3))%3]
+		dup := false
+		for _, pl := range d.PathLevel {
+			if pl.Path == path {
+				dup = true
+			}
+		}
+		if dup {
+			continue
+		}
+		pl := pathLevel{Path: path}
+		switch path {
+		case "/items/{id}":
+			pl.Params = append(pl.Params, param{Name: "id", In: "path", Required: true, Prim: []string{"string", "int64"}[r.Intn(2)]})
+		case "/orders/{orderId}/lines":
+			pl.Params = append(pl.Params, param{Name: "orderId", In: "path", Required: true, Prim: "string"})
+		}
+		if r.Intn(3) > 0 {
+			pl.Params = append(pl.Params, param{Name: "trace", In: "query", Required: r.Bool(), Prim: "string"})
+		}
+		if r.Intn(3) == 0 {
+			pl.Params = append(pl.Params, param{Name: "limit", In: "query", Prim: "int32"})
+		}
+		if r.Intn(3) == 0 {
+			pl.Params = append(pl.Params, param{Name: []string{"X-Tenant", "tenant"}[r.Intn(2)], In: "header", Required: true, Prim: "string"})
+		}
+		if len(pl.Params) == 0 {
+			pl.Params = append(pl.Params, param{Name: "trace", In: "query", Prim: "string"})
+		}
+		d.PathLevel = append(d.PathLevel, pl)
+		methods := []string{"GET", "PUT", "POST", "DELETE", "PATCH"}
+		for i := len(methods) - 1; i > 0; i-- {
+			k := r.Intn(i + 1)
+			methods[i], methods[k] = methods[k], methods[i]
+		}
+		nm := 2 + r.Intn(3)
+		shared := objs[r.Intn(len(objs))]
+		for _, m := range methods[:nm] {
+			e := endpoint{Path: path, Method: m}
+			switch r.Intn(4) {
+			case 0: // an own query parameter
+				e.Params = append(e.Params, param{Name: "own" + m, In: "query", Required: r.Bool(), Prim: "boolean"})
+			case 2: // the same NAME as a path-level header parameter, in another location (distinct for OpenAPI)
+				if r.Intn(3) == 0 {
+					for _, p := range pl.Params {
+						if p.In == "header" && !strings.Contains(p.Name, "-") { // a query name with '-' is renamed (convertToSyslSafe)
+							e.Params = append(e.Params, param{Name: p.Name, In: "query", Prim: "string"})
+							break
+						}
+					}
+				}
+			case 1: // overrides a path-level parameter with the same (name, in)
+				for _, p := range pl.Params {
+					if p.In == "query" {
+						e.Params = append(e.Params, param{Name: p.Name, In: "query", Required: !p.Required, Prim: "int64"})
+						break
+					}
+				}
+			}
+			if m == "PUT" || m == "POST" || m == "PATCH" {
+				if r.Intn(4) > 0 {
+					e.BodyRef = shared // several methods of the path take the same schema
+				} else {
+					e.BodyRef = objs[r.Intn(len(objs))]
+				}
+			}
+			e.Resps = []resp{{Code: "200", Ref: objs[r.Intn(len(objs))]}}
+			if r.Bool() {
+				e.Resps = append(e.Resps, resp{Code: "404"})
+			}
+			d.Eps = append(d.Eps, e)
+		}
+	}
+	return d
+}
+
 // genSQL: tables with typed columns, a primary key (1-2 columns), foreign keys to earlier tables' single-column keys
 func genSQL(r *common.Rng, format, stream string) doc {
 	d := doc{Kind: "doc", Format: format, Stream: stream}
@@ -471,7 +560,18 @@ Require Import Verif.Foreign.NameEscape Verif.Foreign.ImportSpec Verif.Foreign.X
 Local Open Scope string_scope. Local Open Scope N_scope.`, "xsd_case",
 		`Definition M := Eval vm_compute in mismatches xsd_ok cases. Print M.`, 40)
 	defer xc.Close()
+	ec := c.NewCases("C11ep", `From Coq Require Import String List NArith Bool. Import ListNotations.
+Require Import Verif.Foreign.NameEscape Verif.Foreign.ImportSpec Verif.Foreign.EndpointSpec Verif.Foreign.ImportRun Verif.Base.Harness.
+Local Open Scope string_scope. Local Open Scope N_scope.`, "ep_case",
+		`Definition M := Eval vm_compute in mismatches ep_ok cases. Print M.`, 40)
+	defer ec.Close()
 	finish := func(d doc, o docObs) {
+		if d.Format == "swagger" && o.EpProj != nil && len(d.Eps) > 0 {
+			if g, ok := gEpProj(o.EpProj); ok {
+				ec.Add(fmt.Sprintf("(%s, %s)", gEndpoints(d), g), d)
+				c.Hist("doc-model:endpoints-compared-in-coq")
+			}
+		}
 		if d.Format == "xsd" && o.Proj != nil {
 			if g, ok := gProj(o.Proj); ok {
 				xc.Add(fmt.Sprintf("(%s, %s)", gXsdDoc(d), g), d)
@@ -529,6 +629,15 @@ Local Open Scope string_scope. Local Open Scope N_scope.`, "xsd_case",
 		}
 		lap(p.cfg.stream)
 	}
+	// path-level parameters shared by several methods
+	nsh := 25
+	if c.Thorough() {
+		nsh = 300
+	}
+	for i := 0; i < nsh; i++ {
+		run(genSharedParams(c.Rng, "oas2-shared-path-params"))
+	}
+	lap("oas2-shared-path-params")
 	// recursive types: their own small stream
 	nrec := 6
 	if c.Thorough() {
